@@ -540,17 +540,35 @@ def products(ctx, world):
                 im = inner_mv[0]
                 ok = f0.op == "sub" and f0.obj is im and f0.idx.value == 0 and z.op == "call" and z.fn.op == "attr" and z.fn.name == "zeros" and is_call_to(z.fn.obj, "autograd.core.vspace") and z.fn.obj.args[0].op == "sub" and z.fn.obj.args[0].obj is im and z.fn.obj.args[0].idx.value == 1
     _ok(ctx, "A15.products", "make_jvp_reversemode: make_vjp(vjp, vspace(y).zeros())[0]", ok, loc_of(m, node), f"{DO}.make_jvp_reversemode", "make_jvp_reversemode does not differentiate the vjp at zeros of the OUTPUT space and return element [0]", "a function whose output space differs from its input space")
-    # make_ggnvp: ggnvp(v) = f_vjp(g_hvp(f_jvp(v)))
-    m, fn = world.repo.find_def(DO, "make_ggnvp")
+    # make_ggnvp: ggnvp(v) = f_vjp(g_hvp(f_jvp(v)))   (terms: intermediates / unrolled chains are the same term)
+    r, syms, m, fn, sc = eval_function(world, DO, "make_ggnvp._make_ggnvp")
+    r = unseq(r) if r is not None else None
     ok = False
-    for x in ast.walk(fn):
-        if isinstance(x, ast.FunctionDef) and x.name == "ggnvp":
-            e = x.body[0].value if isinstance(x.body[0], ast.Return) else None
-            v = x.args.args[0].arg
-            try:
-                ok = e.func.id == "f_vjp" and e.args[0].func.id == "g_hvp" and e.args[0].args[0].func.id == "f_jvp" and e.args[0].args[0].args[0].id == v
-            except Exception:
-                ok = False
+    fp, xp = syms["#0"], syms["#1"]
+    gp = sc.parent.lookup(fn._parent.args.args[1].arg) if sc.parent is not None and len(fn._parent.args.args) > 1 else None
+    clo, pre, prekw = ev.as_closure(r) if r is not None else (None, None, None)
+    if clo is not None and not pre and not prekw:
+        v = T("sym", name="v", role="param")
+        body = unseq(expand(ev, ev.apply(clo, [v], {}, []), {"autograd.core.make_vjp", "autograd.core.vspace"}))
+        mv = lambda t: is_call_to(t, "autograd.core.make_vjp") and len(t.args) == 2 and not t.kw
+        comp_i = lambda t, i: t.op == "sub" and t.idx.op == "const" and t.idx.value == i and mv(t.obj)
+        # f_vjp(.) with (f_vjp, f_x) = make_vjp(f, x)
+        if body.op == "call" and comp_i(body.fn, 0) and len(body.args) == 1 and not body.kw:
+            fmv = body.fn.obj
+            if fmv.args[0] is fp and fmv.args[1] is xp:
+                mid = body.args[0]
+                # g_hvp(.) with (g_hvp, grad_g_x) = make_vjp(grad(g), f_x)
+                if mid.op == "call" and comp_i(mid.fn, 0) and len(mid.args) == 1 and not mid.kw:
+                    gmv = mid.fn.obj
+                    g_ok = gmv.args[0].op == "call" and _callee_name(world, DO, gmv.args[0]) == "grad" and len(gmv.args[0].args) == 1 and (gp is None or gmv.args[0].args[0] is gp) and gmv.args[1].op == "sub" and gmv.args[1].obj is fmv and gmv.args[1].idx.value == 1
+                    inner = mid.args[0]
+                    # f_jvp(v) with f_jvp = make_vjp(f_vjp, vspace(grad_g_x).zeros())[0]
+                    if g_ok and inner.op == "call" and comp_i(inner.fn, 0) and len(inner.args) == 1 and inner.args[0] is v:
+                        jmv = inner.fn.obj
+                        z = jmv.args[1]
+                        j_ok = jmv.args[0].op == "sub" and jmv.args[0].obj is fmv and jmv.args[0].idx.value == 0
+                        z_ok = z.op == "call" and z.fn.op == "attr" and z.fn.name == "zeros" and is_call_to(z.fn.obj, "autograd.core.vspace") and len(z.fn.obj.args) == 1 and z.fn.obj.args[0].op == "sub" and z.fn.obj.args[0].obj is gmv and z.fn.obj.args[0].idx.value == 1
+                        ok = bool(j_ok and z_ok)
     _ok(ctx, "A15.products", "make_ggnvp: f_vjp(g_hvp(f_jvp(v)))", ok, loc_of(m, fn), f"{DO}.make_ggnvp", "the generalised Gauss-Newton product is not J^T H_g J v composed as f_vjp(g_hvp(f_jvp(v)))", "make_ggnvp(f)(x)(v) against the explicit J^T H J v")
 
 
